@@ -79,44 +79,72 @@ theorem identifier_leading_digit_cex :
     mkId {} "1a" = ['1', 'a'] ∧ isCIdent (mkId {} "1a") = false ∧ isCIdent (mkId {} "") = false := by
   decide
 
-/-- **not_reserved** (guarded): with AMI_CHECK_RESERVED a purely alphanumeric name never comes out as an
-    entry of `res_kwd[]` — reserved words are capitalised, everything else is copied. -/
-theorem not_reserved_partial (s : String) (h : ∀ c ∈ s.toList, isAlnum c = true) :
-    reservedKeyword (mkId { checkReserved := true } s) = false := by
-  have hne : s.toList ≠ [' '] := by
-    intro hs; have := h ' ' (by simp [hs]); simp [isAlnum] at this
-  rw [mkId_eq _ s hne]
-  unfold emitPart
-  simp only [Bool.not_true, Bool.false_and, Bool.false_eq_true, if_false, List.nil_append, Bool.true_and]
-  by_cases hr : reservedKeyword s.toList = true
-  · obtain ⟨c, cs, hcs, ha, hz⟩ := reserved_head_lower hr
-    rw [hcs] at hr
-    simp only [hcs, hr, if_true]
-    have hu := toUpper_lower c ha hz
-    exact not_reserved_of_upper_head hu.2.2.1 hu.2.2.2
-  · simp only [hr, Bool.false_eq_true, if_false]
-    rw [escapeChars_alnum _ _ _ h]
-    simpa using hr
+/-- **not_reserved**: with AMI_CHECK_RESERVED the identifier made from a single name is never an entry of
+    `res_kwd[]` — for *every* name (hyphens, blanks, any byte) and every combination of the other flags.
+    The table is consulted on the escaped text, so a name whose '-' → '_' image is a keyword (`and-eq`,
+    `wchar-t`, `static-assert`) is capitalised like the keyword itself.  (Before the repair of finding F80
+    this held for purely alphanumeric names only.) -/
+theorem not_reserved (fl : Flags) (hr : fl.checkReserved = true) (s : String) :
+    reservedKeyword (mkId fl s) = false := by
+  by_cases hs : s.toList = [' ']
+  · have : mkId fl s = [' '] := by unfold mkId partsLoop; simp [hs, partsLoop]
+    rw [this]; decide
+  · rw [mkId_eq fl s hs, emitPart_first_eq]
+    simp only [hr, Bool.and_self, if_true]
+    exact capitaliseIfReserved_not_reserved _
 
-/-- reserved words themselves are always moved out of the table (no hypothesis on the characters) -/
+/-- the common call `MKID_safe(expr)` = `asn1c_make_identifier(AMI_CHECK_RESERVED, expr, 0)` -/
+theorem not_reserved_safe (s : String) : reservedKeyword (mkId { checkReserved := true } s) = false :=
+  not_reserved _ rfl s
+
+/-- reserved words themselves are moved out of the table by capitalising their first letter, the rest
+    is kept -/
 theorem reserved_word_is_renamed (s : String) (hr : reservedKeyword s.toList = true) :
-    reservedKeyword (mkId { checkReserved := true } s) = false := by
+    reservedKeyword (mkId { checkReserved := true } s) = false ∧
+    ∃ c cs, s.toList = c :: cs ∧ (mkId { checkReserved := true } s).head? = some (toUpper c) ∧
+      'A' ≤ toUpper c ∧ toUpper c ≤ 'Z' := by
+  refine ⟨not_reserved_safe s, ?_⟩
   have hne : s.toList ≠ [' '] := by intro hs; rw [hs] at hr; exact absurd hr (by decide)
-  rw [mkId_eq _ s hne]
-  unfold emitPart
+  obtain ⟨k, hk, hks⟩ := (reservedKeyword_iff s.toList).mp hr
+  have hesc : escapeChars false false s.toList = s.toList := by
+    rw [← hks]; exact resKwd_escape_id k hk
   obtain ⟨c, cs, hcs, ha, hz⟩ := reserved_head_lower hr
+  refine ⟨c, cs, hcs, ?_, (toUpper_lower c ha hz).2.2⟩
+  rw [mkId_eq _ s hne, emitPart_first_eq]
+  simp only [Bool.and_self, if_true, hesc]
+  unfold capitaliseIfReserved
   rw [hcs] at hr
-  simp only [Bool.not_true, Bool.false_and, Bool.false_eq_true, if_false, List.nil_append, Bool.true_and,
-    hcs, hr, if_true]
-  have hu := toUpper_lower c ha hz
-  exact not_reserved_of_upper_head hu.2.2.1 hu.2.2.2
+  simp [hr, hcs]
 
-/-- Region excluded by the guard (finding F80): the table is consulted **before** '-' is replaced by
-    '_', so the valid ASN.1 identifiers `and-eq`, `wchar-t`, `static-assert` become reserved words. -/
-theorem not_reserved_hyphen_cex :
-    reservedKeyword (mkId { checkReserved := true } "and-eq") = true ∧
-    reservedKeyword (mkId { checkReserved := true } "wchar-t") = true ∧
-    reservedKeyword (mkId { checkReserved := true } "static-assert") = true := by decide
+/-- a name that is not a keyword after escaping is copied unchanged (no capitalisation of innocent names) -/
+theorem innocent_name_unchanged (s : String) (hs : s.toList ≠ [' '])
+    (h : reservedKeyword (escapeChars false false s.toList) = false) :
+    mkId { checkReserved := true } s = mkId {} s := by
+  rw [mkId_eq _ s hs, mkId_eq _ s hs, emitPart_first_eq, emitPart_first_eq]
+  simp [capitaliseIfReserved_of_not_reserved _ h]
+
+/-- The former witnesses of finding F80 (the table used to be consulted **before** '-' was replaced by
+    '_', so these valid ASN.1 identifiers came out as the C++ tokens `and_eq`, `wchar_t`, `static_assert`):
+    they are now capitalised. -/
+theorem not_reserved_hyphen_fixed :
+    String.ofList (mkId { checkReserved := true } "and-eq") = "And_eq" ∧
+    String.ofList (mkId { checkReserved := true } "wchar-t") = "Wchar_t" ∧
+    String.ofList (mkId { checkReserved := true } "static-assert") = "Static_assert" ∧
+    String.ofList (mkId { checkReserved := true } "thread-local") = "Thread_local" ∧
+    String.ofList (mkId { checkReserved := true } "and--eq") = "And_eq" ∧
+    String.ofList (mkId { checkReserved := true } "and-eq-x") = "and_eq_x" := by decide
+
+/-- the type / member base name `construct_base_name` produces without `-fcompound-names` (the name is
+    then the expression's own identifier) is never a reserved word -/
+theorem base_name_not_reserved (chain : List String) (hne : chain ≠ []) :
+    reservedKeyword (constructBaseName false true chain) = false := by
+  unfold constructBaseName
+  cases hrev : chain.reverse with
+  | nil => exact absurd (List.reverse_eq_nil_iff.mp hrev) hne
+  | cons self rest =>
+    simp only [Bool.false_eq_true, if_false, List.foldl_nil, List.isEmpty_nil, Bool.and_self,
+      if_true, List.nil_append]
+    exact not_reserved _ rfl self
 
 /-- the translator-extracted `res_kwd[]` contains every C99 keyword an ASN.1 name can spell and every
     C++14 keyword / alternative token (ISO 9899 6.4.1, ISO 14882 2.12) -/
@@ -156,7 +184,9 @@ theorem compound_name_examples :
     String.ofList (constructBaseName true true ["T", "int", "a-b"]) = "T__int__a_b" ∧
     String.ofList (constructBaseName false true ["T", "int"]) = "Int" ∧
     String.ofList (constructBaseName true true ["int"]) = "Int" ∧
-    String.ofList (constructBaseName true false ["int"]) = "int" := by decide
+    String.ofList (constructBaseName true false ["int"]) = "int" ∧
+    String.ofList (constructBaseName false true ["T", "xor-eq"]) = "Xor_eq" ∧
+    String.ofList (constructBaseName true true ["T", "xor-eq"]) = "T__xor_eq" := by decide
 
 /-! ## WfDescr: what the codecs get from a well-formed descriptor -/
 
